@@ -21,6 +21,7 @@ ID = "C10"
 FORMULAS = [
     "y ~ f", "y ~ 0 + f", "y ~ x + f + g", "y ~ f:g", "y ~ x:f", "y ~ f + f:x", "y ~ C(k)", "y ~ 0 + C(k) + x", "y ~ C(g, Sum)", "y ~ g:C(k)",
     "y ~ x + (1|g)", "y ~ (x|g)", "y ~ (f|g)", "y ~ (0 + f|g)", "y ~ (1|g) + (x|h)", "y ~ (x|g:h)", "y ~ (1|C(k))", "y ~ f + (x|g) + (1|h)", "y ~ (1|g) + (1|h) + (x|g)",
+    "y ~ C(g, levels=gl)", "y ~ x:T(g, 't', levels=gl)", "y ~ (1|C(g, levels=gl))",  # codings that carry their own level list
 ]
 UNSEEN = {"f": "ab", "g": "ss", "h": "qq", "k": 99, "wid": "G999"}
 WIDE = "y ~ (1|wid) + (x|g)"  # a block of more than 256 columns  # longer than, and starting like, a training level
@@ -44,6 +45,8 @@ def cases(tier):
                     out.append((f, list(vs), rows, mode, seq, "str"))
                     if mode != "error" and rows == [0] and seq == "direct":
                         out.append((f, list(vs), rows, mode, seq, "ord"))  # declared (non-alphabetical) level order
+                    if rows == [0] and seq == "direct":
+                        out.append((f, list(vs), rows, mode, seq, "catnew"))  # the NEW frame stores the column as a pandas categorical
         # flavour variation for one placement
     for vs in (["g"], ["wid"], ["wid", "g"]):
         for mode in ("silent", "warning") if tier != "quick" else ("silent",):
@@ -82,13 +85,15 @@ def harness(env, case):
 
     formula, vs, rows_spec, mode, seq, flavour = case
     vars_ = gen.used_vars(formula)
+    catnew = flavour == "catnew"
+    flavour = "str" if catnew else flavour
     df, rows = gen.build_frame(env, vars_, flavour, "scramble", min_rows=5)
     n = len(df)
     pick = [0, n // 3, n // 2, n - 1]
     config["EVAL_UNSEEN_CATEGORIES"] = "error"
     try:
         with env.running():
-            dm = design_matrices(formula, df)
+            dm = design_matrices(formula, df, extra_namespace={"gl": ["t", "u", "s"]})
     except symx.PathEnd:
         raise
     except Exception as e:
@@ -111,6 +116,9 @@ def harness(env, case):
         if flavour == "ord" and v != "k":
             seen[v] = pd.Series(list(seen[v].values), dtype="str")
         affected[v] = list(rr)
+        if catnew and v != "k":
+            unseen[v] = pd.Series(pd.Categorical(list(unseen[v].values)))
+            seen[v] = pd.Series(pd.Categorical(list(seen[v].values)))
     try:
         set_mode(config, mode, seq, env)
         for what in ("common", "group"):
